@@ -57,8 +57,11 @@ def compare(rec, a, b, what, reassoc=False, **ctx):
   for k in ("ne", "nf", "nl", "nefc"):
     check_equal(rec, k, a[k], b[k], sig=f"{what}:{k}", **ctx)
   if reassoc:
+    # Newton + sparse: the Hessian is summed in groups whose number depends on nworld, so H differs in the last ulp.  A float32 solve at
+    # tolerance 1e-8 stops on exact stagnation, which such a difference can postpone arbitrarily (seen: 2 vs 100 iterations with bit-identical
+    # qacc), so the iteration count is recorded but not judged here; the solution itself is compared below.
     if abs(a["niter"] - b["niter"]) > 3:
-      rec.violation(f"niter differs by more than round-off can explain: {a['niter']} vs {b['niter']}", sig=f"{what}:niter", **ctx)
+      rec.notes["niter_differs_by_more_than_3(newton+sparse)"] += 1
   else:
     if abs(a["niter"] - b["niter"]) > 1:
       rec.violation(f"niter differs: {a['niter']} vs {b['niter']}", sig=f"{what}:niter", **ctx)
